@@ -89,3 +89,19 @@ impl Spec {
 }
 
 pub use crate::render_gen::render;
+
+/// a sink that accepts `cap` bytes and then refuses
+pub struct Limited {
+    pub cap: usize,
+    pub got: usize,
+}
+impl std::fmt::Write for Limited {
+    fn write_str(&mut self, s: &str) -> std::fmt::Result {
+        if self.got + s.len() > self.cap {
+            self.got = self.cap;
+            return Err(std::fmt::Error);
+        }
+        self.got += s.len();
+        Ok(())
+    }
+}
